@@ -102,9 +102,12 @@ def job_kernels(tier, seed):
 
 
 # ------------------------------------------------------------------------------------------------ wiring
-def spec_alm(R, opname, operand16, accname, imm8_form=False):
-    """post-state of an alm/alu form: op applied to accumulator `accname` (field name) and the 16-bit operand"""
-    if opname in ('Cmp', 'Sub', 'Add'):
+def spec_alm(R, opname, operand16, accname, imm8_form=False, bus40=None):
+    """post-state of an alm/alu form: op applied to accumulator `accname` (field name) and the 16-bit operand (or, for the
+    40-bit register sources, the sign-extended 40-bit bus value `bus40`, which is used as it is)"""
+    if bus40 is not None:
+        x = bus40
+    elif opname in ('Cmp', 'Sub', 'Add'):
         x = z3.SignExt(48, operand16)
     elif opname in ('Addh', 'Subh'):
         x = z3.SignExt(32, z3.Concat(operand16, z3.BitVecVal(0, 16)))
@@ -146,7 +149,10 @@ def ite_posts(posts, R):
     return out
 
 
-def job_row(i, tier, seed):
+ACCFLAGS = ('a[0]', 'a[1]', 'b[0]', 'b[1]', 'fz', 'fm', 'fe', 'fn', 'fc0', 'fv', 'fvl', 'flm')
+
+
+def job_row(i, tier, seed, variant=None):
     E = env()
     ck = core.Check('C03', 'model_checking', tier, seed)
     row, form = E.rows[i], E.forms[i]
@@ -159,11 +165,17 @@ def job_row(i, tier, seed):
     nm = row['name']
     ops = [p for p in form['ops'] if p[0] in ('at', 'const')]
     types = tuple(p[1] for p in ops)
+    if variant == 'bus40':
+        if not (nm == 'alm' and types == ('Alm', 'Register', 'Ax')):
+            return ck.export()
+        nm = 'alm#bus40'
     F = lambda k: forms.field(o, e, ops[k])
     dm0 = E.pre_dmem()
     spec = None
     memspec = 'same'
     extra = []
+    intercepts = {}
+    only_fields = None
     accs = lambda ty: forms.ENUMS[ty]
 
     def over_acc(ty, idx, fn):
@@ -212,6 +224,30 @@ def job_row(i, tier, seed):
             val = t_ if val is None else z3.If(idx == k_, t_, val)
         extra = [z3.Or(*[idx == k_ for k_ in REG]), z3.And(*[F(0) != forms.ENUMS['Alm'].index(m_) for m_ in MULOPS])]
         spec = over_acc('Ax', F(2), lambda acc: over_op('Alm', F(0), lambda opn: spec_alm(R, opn, val, acc), ALLOWED))
+    elif nm == 'alm#bus40':
+        # the 40-bit register sources of alm <register>: p (read through the product shifter), a0, a1 - the whole 40-bit
+        # value is the operand; only or/and/xor/add/cmp/sub are defined for them (the others raise Unimplemented)
+        B40OPS = ('Or', 'And', 'Xor', 'Add', 'Cmp', 'Sub')
+        idx = F(1)
+        src = z3.If(idx == 11, alu.product40(R, 0), z3.If(idx == 24, R['a[0]'], R['a[1]']))
+        extra = [z3.Or(idx == 11, idx == 24, idx == 25), z3.Or(*[F(0) == forms.ENUMS['Alm'].index(m_) for m_ in B40OPS])]
+        spec = over_acc('Ax', F(2), lambda acc: over_op('Alm', F(0), lambda opn: spec_alm(R, opn, None, acc, bus40=src), B40OPS))
+    elif nm == 'alm' and types == ('Alm', 'Rn', 'StepZIDS', 'Ax'):
+        # alm [Rn]: the operand is the data word at the address the stepper hands out (the stepping itself is C10's
+        # subject and returns a fresh value here); accumulators and flags are compared, the address registers are not
+        only_fields = ACCFLAGS
+        extra = [z3.And(*[F(0) != forms.ENUMS['Alm'].index(m_) for m_ in MULOPS])]
+        stepfn = [n for n in E.mod.funcs if 'Interpreter11RnAndModifyE' in n]
+        if len(stepfn) != 1:
+            ck.engine_errors.append('RnAndModify symbol not found')
+            return ck.export()
+        RNOLD = z3.BitVec('RNOLD_0', 16)
+
+        def stepper(e_, st, a):
+            st.log.append(('STEP', list(st.pc), a[1], a[2]))
+            return st, RNOLD
+        intercepts[stepfn[0]] = stepper
+        spec = None       # built after the run: the operand is the word at the (single) address read
     elif nm in ('or_', 'and_') and len(types) == 3:
         def f(acc):
             va, vb = alu.acc_sel(R, F(0), accs(types[0])), alu.acc_sel(R, F(1), accs(types[1]))
@@ -283,25 +319,45 @@ def job_row(i, tier, seed):
         spec = {k: (done[k] if done[k] is R[k] else z3.If(cond, done[k], R[k])) for k in R}
     else:
         return ck.export()
+    ex_ = E.base()[0]
+    ex_.intercepts.update(intercepts)
     try:
         r = E.run_row(i, o, e, A + extra)
     except (Abort, UnwindBound) as x:
         ck.inconclusive.append('row %d %s: %r' % (i, nm, x))
         return ck.export()
+    finally:
+        for n_ in intercepts:
+            ex_.intercepts.pop(n_, None)
     ck.ninstr += r['ninstr']
     ck.nstates += 1
     if r['st'] is None:
         ck.prove('Wiring[%d %s]' % (i, nm), A + extra, z3.BoolVal(False), vars={'o': o, 'e': e})
         return ck.export()
     post = E.post_regs(r['st'])
+    pre_goals = []
+    if spec is None:
+        reads = [ev for ev in r['st'].log if ev[0] == 'R']
+        steps = [ev for ev in r['st'].log if ev[0] == 'STEP']
+        if len(reads) != 1 or len(steps) != 1:
+            ck.prove('Wiring[%d %s%s]' % (i, nm, types), A + extra, z3.BoolVal(False), vars={'o': o, 'e': e})
+            return ck.export()
+        val = z3.Select(dm0, reads[0][2])
+        # the address read is the stepped register's pre-modified value (through the real RnAddress: bit reversal applies)
+        pre_goals.append(z3.BoolVal('RNOLD_0' in str(reads[0][2])))
+        spec = over_acc('Ax', F(3), lambda acc: over_op('Alm', F(0), lambda opn: spec_alm(R, opn, val, acc), ALLOWED))
+    if only_fields is not None:
+        post = {f: post[f] for f in only_fields}
+        spec = {f: spec[f] for f in only_fields}
     g, names = diff_goal(post, spec, R)
+    g += pre_goals
     g.append(E.post_dmem(r['st']) == dm0)
     g.append(z3.Not(kit.exit_cond(type('X', (), {'exits': r['exits']})())))
     vars_ = vars_of(R, {'o': o, 'e': e})
     vars_.update({'exp.' + f: spec.get(f, R[f]) for f in names})
     vars_['exp.dmem_unchanged'] = z3.BoolVal(True)
     vars_.update(interp.read_vars(E, r['st']))
-    ck.prove('Wiring[%d %s%s]' % (i, nm, types), A + extra, z3.And(*g), vars=vars_, replay=interp.spec_replayer(E, i, names),
+    ck.prove('Wiring[%d %s%s]' % (i, nm, types), A + extra, z3.And(*g), vars=vars_, replay=(interp.spec_replayer(E, i, names) if not intercepts else None),
              sample='row %d %s%s: post-state == model(pre-state) on all %d register fields, data memory unchanged, no abort; operand selectors symbolic' % (i, nm, types, len(post)))
     return ck.export()
 
@@ -317,12 +373,12 @@ def run(tier, seed):
                      'or_ (3)', 'and_', 'add/sub (3 forms each)', 'add_p1', 'sub_p1', 'cmp (2)', 'cmp_b0_b1', 'cmp_b1_b0', 'cmp_p1_to', 'moda4/moda3 (clr not neg rnd pacr clrr inc dec copy)', 'pacr1', 'lim'])
     ck.assumptions += ['pre-state satisfies Inv', 'operand forms (which opcode bits name which operand) are read from decoder.h INST lines',
                        'documented hardware quirks carried in the model: and #imm8 keeps accumulator bits 8..15; neg carry/overflow rule; logic ops do not saturate',
-                       'forms with a Register or [Rn] operand (RegToBus16 / address stepping) are covered by C01 (reference) and C10, not by this model; multiply-flavoured ALM ops (msu, sqr, sqra) belong to C04']
+                       'alm <register>: plain 16-bit sources and the three 40-bit sources (p through the product shifter, a0, a1; or/and/xor/add/cmp/sub only, as the code defines) are modelled; status words, pc/sp/lc/ext sources are left to C01 (reference). alm [Rn]: the operand is the data word at the address the stepper returns (stepping abstracted to a fresh value - C10 decides it); accumulators and flags are compared. Multiply-flavoured ALM ops (msu, sqr, sqra) belong to C04']
     ck.bounds += ['no bound on values: 40-bit accumulators, 16-bit operands, all flag/saturation pre-states; operand selector fields symbolic inside each row']
     ck.stubs += E.tabulated
     fam = ('alm_r6', 'alu', 'alm', 'or_', 'and_', 'add', 'sub', 'add_p1', 'sub_p1', 'cmp', 'cmp_b0_b1', 'cmp_b1_b0', 'cmp_p1_to', 'pacr1', 'moda4', 'moda3', 'lim')
     rows = [r['i'] for r in E.rows if r['name'] in fam]
-    res = core.pmap(job_kernels, [(tier, seed)]) + core.pmap(job_row, [(i, tier, seed) for i in rows])
+    res = core.pmap(job_kernels, [(tier, seed)]) + core.pmap(job_row, [(i, tier, seed) for i in rows] + [(r['i'], tier, seed, 'bus40') for r in E.rows if r['name'] == 'alm'])
     for r in res:
         if '__error__' in r:
             ck.engine_errors.append(r['__error__'])
